@@ -21,6 +21,7 @@ import (
 	"github.com/ontio/ontology/core/signature"
 	"github.com/ontio/ontology/core/types"
 	cutils "github.com/ontio/ontology/core/utils"
+	"github.com/ontio/ontology/smartcontract/service/native/global_params"
 	"github.com/ontio/ontology/smartcontract/service/native/ont"
 	"github.com/ontio/ontology/smartcontract/service/native/ontfs"
 	nutils "github.com/ontio/ontology/smartcontract/service/native/utils"
@@ -40,8 +41,11 @@ type Input struct {
 	BookKey string     `json:"book_key"`
 	Blocks  [][]TxSpec `json:"blocks"`
 	Restart int        `json:"restart"` // the syncing node closes and reopens its ledger before this block index (0 = never)
-	Track   []string   `json:"track"`   // addresses (hex) whose ONT/ONG balances are compared
-	Repeat  int        `json:"repeat"`  // ExecuteBlock repetitions on the member (map-order shaking)
+	// the syncing node is restarted as a NEW PROCESS before this block index (0 = never): blocks
+	// before it are added by one process, the rest by another one opening the same data directory
+	ProcRestart int      `json:"proc_restart"`
+	Track       []string `json:"track"`  // addresses (hex) whose ONT/ONG balances are compared
+	Repeat      int      `json:"repeat"` // ExecuteBlock repetitions on the member (map-order shaking)
 }
 
 var schemes = []string{"SHA256withECDSA", "SHA224withECDSA", "SHA384withECDSA", "SHA512withECDSA",
@@ -520,6 +524,133 @@ func (g *txGen) chain(nBlocks, maxTx int) *Input {
 			g.count("tx:" + t.Kind)
 		}
 	}
+	return in
+}
+
+// hashScript: n rounds of SHA256 and HASH160 over a byte string, then an APPCALL of a deployed
+// contract: the opcodes whose gas fee comes from the on-chain parameter table.
+func hashScript(n int, target common.Address, salt int64) []byte {
+	a := newAsm().pushInt(salt).op(neovm.DROP)
+	a.pushStr("c02-parameter-change")
+	for i := 0; i < n; i++ {
+		a.op(neovm.SHA256, neovm.HASH160)
+	}
+	a.syscall(sysNotify)
+	a.appcall(target)
+	return a.bytes()
+}
+
+// paramRestartChain: blocks using SHA256 / HASH160 / APPCALL; then the chain's admin (the solo
+// bookkeeper) changes the gas fee of those opcodes through the global_params contract
+// (setGlobalParam + createSnapshot in one transaction); then more blocks using them, with gas limits
+// below, between and above the old and the new cost. The syncing node is restarted as a new process
+// right after the parameter change: a node that has seen the old fees and a node that has only seen
+// the new ones must charge the same.
+func (g *txGen) paramRestartChain() *Input {
+	in := &Input{Kind: "chain", BookKey: g.bookKeyHex(), Track: g.track(), Repeat: 1}
+	in.Blocks = append(in.Blocks, g.fundingBlock())
+	in.Blocks = append(in.Blocks, []TxSpec{g.deployTx(true, 0)})
+	target := g.counters[0]
+	use := func(kind string, n int, gasLimit uint64) TxSpec {
+		a := g.accts[g.r.Intn(len(g.accts))]
+		tx := g.mtx(hashScript(n, target, g.r.Int63n(1000)), 2500, gasLimit)
+		tx.Payer = a.Address
+		signSingle(tx, a)
+		return TxSpec{rawOf(tx), kind}
+	}
+	// old fees: SHA256 10, HASH160 20, APPCALL 10 (a few hundred gas per script: the minimum fee applies)
+	var before []TxSpec
+	for i := 0; i < 3+g.r.Intn(3); i++ {
+		before = append(before, use("param:hash-before-change", 1+g.r.Intn(4), 20000+uint64(g.r.Intn(3))*20000))
+	}
+	in.Blocks = append(in.Blocks, before)
+	// the change
+	fee := uint64(20000 + g.r.Intn(20000))
+	ps := []global_params.Param{{Key: "SHA256", Value: fmt.Sprint(fee)}, {Key: "HASH160", Value: fmt.Sprint(fee + 7)},
+		{Key: "APPCALL", Value: fmt.Sprint(fee / 2)}}
+	c1, err := cutils.BuildNativeInvokeCode(nutils.ParamContractAddress, 0, "setGlobalParam", []interface{}{ps})
+	if err != nil {
+		panic(err)
+	}
+	c2, err := cutils.BuildNativeInvokeCode(nutils.ParamContractAddress, 0, "createSnapshot", []interface{}{})
+	if err != nil {
+		panic(err)
+	}
+	adm := g.mtx(append(c1, c2...), 0, 20000)
+	adm.Payer = g.book.Address
+	signSingle(adm, g.book)
+	in.Blocks = append(in.Blocks, []TxSpec{{rawOf(adm), "param:set+snapshot"}, use("param:hash-in-change-block", 2, 60000)})
+	in.ProcRestart = len(in.Blocks)
+	// new fees: one script with n rounds costs about n*(2*fee+7) + fee/2
+	for b := 0; b < 2; b++ {
+		var after []TxSpec
+		for i := 0; i < 3+g.r.Intn(3); i++ {
+			n := 1 + g.r.Intn(3)
+			cost := uint64(n)*(2*fee+7) + fee/2
+			var gl uint64
+			switch g.r.Intn(4) {
+			case 0:
+				gl = 20000 // enough at the old fee only
+			case 1:
+				gl = cost - 1 - uint64(g.r.Intn(2000)) // just short at the new fee
+			case 2:
+				gl = cost + 200 + uint64(g.r.Intn(2000)) // just enough at the new fee
+			default:
+				gl = cost + 50000
+			}
+			after = append(after, use("param:hash-after-change", n, gl))
+		}
+		if b == 1 {
+			after = append(after, g.randomTx(), g.randomTx())
+		}
+		in.Blocks = append(in.Blocks, after)
+	}
+	for _, blk := range in.Blocks {
+		for _, t := range blk {
+			g.count("tx:" + t.Kind)
+		}
+	}
+	return in
+}
+
+// probeStaleGasParam: the process-global neovm.GAS_TABLE is only ever overwritten by
+// refreshGlobalParam for parameters whose on-chain value parses as a number. The admin sets
+// SHA256 = 30000 (a node running at that time stores it in its table), later sets SHA256 to a value
+// that does not parse (nothing is stored: a running node keeps 30000, a node started afterwards has
+// the compiled-in 10). The syncing node is restarted as a new process after the second change.
+func (g *txGen) probeStaleGasParam() *Input {
+	in := &Input{Kind: "probe:procstate:gas-table-keeps-unparsable-param", BookKey: g.bookKeyHex(), Repeat: 1,
+		Track: []string{g.book.Address.ToHexString(), nutils.GovernanceContractAddress.ToHexString()}}
+	dc, err := payload.NewDeployCode(counterContract(7), payload.NEOVM_TYPE, "c", "1", "a", "e", "d")
+	if err != nil {
+		panic(err)
+	}
+	g.nonce++
+	dep := &types.MutableTransaction{GasLimit: 20000, TxType: types.Deploy, Nonce: g.nonce, Payload: dc, Payer: g.book.Address}
+	signSingle(dep, g.book)
+	setParam := func(val string) TxSpec {
+		ps := []global_params.Param{{Key: "SHA256", Value: val}}
+		c1, err := cutils.BuildNativeInvokeCode(nutils.ParamContractAddress, 0, "setGlobalParam", []interface{}{ps})
+		if err != nil {
+			panic(err)
+		}
+		c2, err := cutils.BuildNativeInvokeCode(nutils.ParamContractAddress, 0, "createSnapshot", []interface{}{})
+		if err != nil {
+			panic(err)
+		}
+		tx := g.mtx(append(c1, c2...), 0, 20000)
+		tx.Payer = g.book.Address
+		signSingle(tx, g.book)
+		return TxSpec{rawOf(tx), "param:set SHA256=" + val}
+	}
+	use := func() TxSpec {
+		tx := g.mtx(hashScript(2, dc.Address(), int64(g.nonce)), 2500, 200000)
+		tx.Payer = g.book.Address
+		signSingle(tx, g.book)
+		return TxSpec{rawOf(tx), "param:hash-script"}
+	}
+	in.Blocks = [][]TxSpec{{{rawOf(dep), "deploy:counter"}}, {setParam("30000")}, {use()}, {setParam("not-a-number")}, {use()}, {use()}}
+	in.ProcRestart = 4
 	return in
 }
 
